@@ -5,19 +5,19 @@ PROPS['C17'] = dict(
     level_text='Random search with shrinking over LOBPCGSolver<float|double|long double>, n <= 60, block size k with 5k < n, six spectrum classes (prescribed gaps >= 1 between the k+1 smallest values; clustered, spread, '
                'linear, geometric, indefinite remainder; a Laplacian stencil), four eigenvector bases (permutation = diagonal A, Givens product, block orthogonal, dense), B absent / identity via setB / diagonal / '
                'bidiagonal L L\' / dense SPD with kappa(B) <= 1e3, scales 1e-4..1e4, preconditioner absent / Jacobi / scaled identity / |A|^-1, six start-block kinds (dense, sparse, unit vectors, perturbed / rotated / '
-               'exact eigenvectors), optional constraints (already found eigenvectors, also as a rotated basis), maxit 0..200, tol from 1e-2 down to the precision limit relative to the natural residual scale, and an optional second compute(). '
+               'exact eigenvectors), optional constraints (already found eigenvectors, also as a rotated basis), maxit 0..200, tol from 1e-2 down to the precision limit relative to the natural residual scale, and an optional second compute(). Second unit (c17s, double): histories compute() -> setB(another SPD matrix) [-> setPreconditioner] -> compute(), up to three rounds on one object, on benign pencils; after every successful round the results must describe the pencil in force at that call. '
                'After every compute(): Success => eigenvalues() has k finite ascending entries equal to the k smallest (deflated) reference eigenvalues within tol*n/sqrt(lambda_min(B)) + rounding; the private iterate is n-by-k with '
                'X\'BX = I; residuals() is n-by-k, equals A X - B X diag(eigenvalues) and every column norm is below tol*n; eigenvectors() is n-by-k, B-orthonormal and consistent with residuals(). An exception leaving compute() is a '
                'non-success outcome: info() must not say Success afterwards.',
     level_note='The statement is conditional on info()==Success; the fraction of cases reaching Success (and with >= 2 iterations) is in the class histogram. "Which" eigenvalues is asserted only when the start block has a component along every '
                'wanted eigenvector (cosine of the largest principal angle >= 1e-3) and the tolerance is below 1/8 of the smallest gap; otherwise only membership in the reference spectrum is asserted. The iteration count is not observable, '
                'so rounding terms carry the factor 1 + min(n, maxit). The public-eigenvectors checks run last in a case, so the open D12 finding does not mask anything else.',
-    units=real_units('c17', 'c17_lobpcg.cpp'),
+    units=real_units('c17', 'c17_lobpcg.cpp') + [dict(name='c17s', src='c17_setters.cpp')],
     runs=dict(
-        quick=[dict(unit='c17_d', cases=4000, workers=2), dict(unit='c17_f', cases=4000, workers=1), dict(unit='c17_l', cases=4000, workers=1)],
-        thorough=[dict(unit='c17_d', cases=10000, workers=8), dict(unit='c17_f', cases=10000, workers=4), dict(unit='c17_l', cases=10000, workers=4)],
+        quick=[dict(unit='c17_d', cases=4000, workers=2), dict(unit='c17_f', cases=4000, workers=1), dict(unit='c17_l', cases=4000, workers=1), dict(unit='c17s', cases=1500, workers=2)],
+        thorough=[dict(unit='c17_d', cases=10000, workers=8), dict(unit='c17_f', cases=10000, workers=4), dict(unit='c17_l', cases=10000, workers=4), dict(unit='c17s', cases=6000, workers=4)],
     ),
-    min=dict(quick=dict(cases=14000, nontrivial=3000, classes={'outcome/Success': 6000, 'Success_after_2+_iterations': 3000, 'eigenvalue_identity_asserted': 3000, 'B/bidiagonal_LLt': 300,
+    min=dict(quick=dict(cases=14000, nontrivial=3000, classes={'Success_after_setB_between_computes': 600, 'outcome/Success': 6000, 'Success_after_2+_iterations': 3000, 'eigenvalue_identity_asserted': 3000, 'B/bidiagonal_LLt': 300,
                                                             'preconditioner/jacobi': 300, 'constraints': 200, 'second_compute': 300}),
              thorough=dict(cases=150000, nontrivial=40000)),
     rule='case = (scalar, n, k, constraints m / rotated / skip-lowest, spectrum class, basis kind, B kind and kappa decades, content seed, position of the lowest eigenvalue, scales of A and B, preconditioner, start-block kind, '
